@@ -179,7 +179,7 @@ Inductive ghost := GNone | GBlock (h : N) (depth : N) | GAmbiguous.
 Fixpoint ghost_descend (fuel : nat) (vs : voterset) (hs : list hdr) (votes : list (N * mult))
   (cur : N) (depth : N) : ghost :=
   match fuel with
-  | O => GBlock cur depth
+  | O => GAmbiguous      (* not reached: every step consumes a different header *)
   | S f =>
     match filter (fun c => vs_threshold vs <=? block_weight vs hs votes c) (children hs votes cur) with
     | [] => GBlock cur depth
